@@ -28,6 +28,7 @@ type Cfg struct {
 	InitMeta int
 	Prealloc bool
 	SyncFull bool
+	Extra    int // bytes added to the configured maximum size (a limit that is not a multiple of the page size)
 }
 
 // Standard configurations (see DESIGN.md section 5).
@@ -43,13 +44,15 @@ var (
 	CfgP17 = Cfg{Name: "P17", PageSize: 4096, MaxPages: 17}
 	CfgP21 = Cfg{Name: "P21", PageSize: 4096, MaxPages: 21}
 	// large pages (header probing, mmap sizing)
+	// maximum size that is not a multiple of the page size (documented: rounded down to full pages)
+	CfgU = Cfg{Name: "U", PageSize: 1024, MaxPages: 64, Extra: 1000}
 	CfgG = Cfg{Name: "G", PageSize: 65536, MaxPages: 0}
 	CfgH = Cfg{Name: "H", PageSize: 131072, MaxPages: 16}
 )
 
 // CfgByName looks a configuration up.
 func CfgByName(n string) (Cfg, bool) {
-	for _, c := range []Cfg{CfgA, CfgB, CfgC, CfgD, CfgE, CfgF, CfgP16, CfgP17, CfgP21, CfgG, CfgH} {
+	for _, c := range []Cfg{CfgA, CfgB, CfgC, CfgD, CfgE, CfgF, CfgP16, CfgP17, CfgP21, CfgG, CfgH, CfgU} {
 		if c.Name == n {
 			return c, true
 		}
@@ -60,7 +63,7 @@ func CfgByName(n string) (Cfg, bool) {
 // Options returns the txfile options creating/opening this configuration.
 func (c Cfg) Options() txfile.Options {
 	o := txfile.Options{
-		MaxSize:      uint64(c.MaxPages * c.PageSize),
+		MaxSize:      uint64(c.MaxPages*c.PageSize + c.Extra),
 		PageSize:     uint32(c.PageSize),
 		InitMetaArea: uint32(c.InitMeta),
 		Prealloc:     c.Prealloc,
